@@ -288,9 +288,41 @@ def r11_4(rep: Report) -> None:
     e_ast = ast.parse(paths[0].result.text, mode='eval').body
     ops: list[tuple] = []
     cur = e_ast
+    def translate_pairs(arg: ast.AST) -> list[tuple] | None:
+        """str.maketrans(..) of a module-level table -> the single-character replacements it makes"""
+        tab = arg
+        if isinstance(arg, ast.Name):
+            defs = [st_.value for st_ in tree.body if isinstance(st_, ast.Assign) and len(st_.targets) == 1
+                    and isinstance(st_.targets[0], ast.Name) and st_.targets[0].id == arg.id]
+            if len(defs) != 1:
+                return None
+            tab = defs[0]
+        if not (isinstance(tab, ast.Call) and call_name(tab) in ('str.maketrans', 'bytes.maketrans')):
+            return None
+        a_ = tab.args
+        try:
+            if len(a_) == 1 and isinstance(a_[0], ast.Dict):
+                d_ = ast.literal_eval(a_[0])
+                return [('replace', k_, '' if v_ is None else v_) for k_, v_ in d_.items()]
+            if len(a_) >= 2:
+                x_, y_ = ast.literal_eval(a_[0]), ast.literal_eval(a_[1])
+                out_ = [('replace', k_, v_) for k_, v_ in zip(x_, y_)]
+                if len(a_) == 3:
+                    out_ += [('replace', k_, '') for k_ in ast.literal_eval(a_[2])]
+                return out_
+        except (ValueError, SyntaxError):
+            return None
+        return None
     while isinstance(cur, ast.Call) and isinstance(cur.func, ast.Attribute) \
-            and cur.func.attr in ('replace', 'rstrip', 'strip', 'decode'):
-        ops.append((cur.func.attr,) + tuple(a_.value if isinstance(a_, ast.Constant) else norm(a_) for a_ in cur.args))
+            and cur.func.attr in ('replace', 'rstrip', 'strip', 'decode', 'translate'):
+        if cur.func.attr == 'translate':
+            tp = translate_pairs(cur.args[0]) if len(cur.args) == 1 else None
+            if tp is None:
+                raise AnalysisError('base64url_encode: translate() table not resolved')
+            ops.extend(tp)
+        else:
+            ops.append((cur.func.attr,) + tuple(a_.value if isinstance(a_, ast.Constant) else norm(a_)
+                                                for a_ in cur.args))
         cur = cur.func.value
     if isinstance(cur, ast.Call) and call_name(cur) == 'str' and cur.args:
         cur = cur.args[0]
